@@ -257,9 +257,14 @@ def check(case, rec):
         if case["lab"]["kind"] == "md" and ref.md(axis) is None:
             rec.skip("metadata labeller without metadata")
             return
-        parts = list(t.partition(arg, axis=axis,
-                                 remove_empty=case["remove_empty"],
-                                 ignore_none=case["ignore_none"]))
+        if case["lab"].get("salt", 0) % 3 == 2:
+            # partition(f, axis, remove_empty, ignore_none), positionally
+            parts = list(t.partition(arg, axis, case["remove_empty"],
+                                     case["ignore_none"]))
+        else:
+            parts = list(t.partition(arg, axis=axis,
+                                     remove_empty=case["remove_empty"],
+                                     ignore_none=case["ignore_none"]))
         exp_groups = {lb: idx for lb, idx in groups.items()
                       if not (case["ignore_none"] and lb is None)}
         got_labels = [p[0] for p in parts]
